@@ -148,6 +148,11 @@ pub trait Check: Sync + Send {
     fn threads(&self) -> usize {
         8
     }
+    /// >1 for properties whose subject is run-to-run variation (C10): a failing case is re-executed this many times
+    /// before the harness concludes that it does not reproduce, and then the original observation is reported
+    fn reexec_attempts(&self) -> usize {
+        1
+    }
 }
 
 #[derive(Default)]
@@ -260,6 +265,9 @@ pub fn run_random(check: Arc<dyn Check>, tier: Tier, seed: u64, node_path: &str,
                 let strategy = proptest::collection::vec(any::<u32>(), 0..=check.stream_len());
                 let stats = std::cell::RefCell::new(Stats::default());
                 let failed = std::cell::Cell::new(false);
+                // the first observed failure, as observed (for subjects that are themselves nondeterministic the
+                // observation is the evidence: a later re-execution need not show it again)
+                let first_fail: std::cell::RefCell<Option<Found>> = std::cell::RefCell::new(None);
                 let ctxc = std::cell::RefCell::new(&mut ctx);
                 let res = runner.run(&strategy, |data| {
                     if stats.borrow().infra.is_some() {
@@ -277,6 +285,9 @@ pub fn run_random(check: Arc<dyn Check>, tier: Tier, seed: u64, node_path: &str,
                         stats.borrow_mut().absorb(&out);
                     }
                     if let Some(v) = &out.violation {
+                        if first_fail.borrow().is_none() {
+                            *first_fail.borrow_mut() = Some(Found { violation: v.clone(), case: case.clone(), choices: data.clone(), seed: tseed });
+                        }
                         failed.set(true);
                         return Err(TestCaseError::fail(v.signature.clone()));
                     }
@@ -307,8 +318,22 @@ pub fn run_random(check: Arc<dyn Check>, tier: Tier, seed: u64, node_path: &str,
                     // re-run the shrunk case to get the final observation
                     let mut s = Src::new(&minimal);
                     let case = check.generate(&mut s, tier);
-                    let out = check.exec(&case, ctx);
-                    if let Some(v) = out.violation {
+                    let mut out = check.exec(&case, ctx);
+                    for _ in 1..check.reexec_attempts() {
+                        if out.violation.is_some() || out.infra.is_some() {
+                            break;
+                        }
+                        out = check.exec(&case, ctx);
+                    }
+                    if out.violation.is_none() && out.infra.is_none() && check.reexec_attempts() > 1 {
+                        // observed once, not shown again by the re-executions: report the observation itself
+                        if let Some(mut f) = first_fail.borrow_mut().take() {
+                            f.violation.what = format!("{} [observed once; {} re-executions of the shrunk case did not show it again]", f.violation.what, check.reexec_attempts());
+                            found = Some(f);
+                        }
+                    }
+                    if found.is_some() {
+                    } else if let Some(v) = out.violation {
                         found = Some(Found { violation: v, case, choices: minimal, seed: tseed });
                     } else if let Some(i) = out.infra {
                         stats.borrow_mut().infra = Some(i);
